@@ -421,6 +421,16 @@ func (e *Encoder) havocRange(st *State, s Val, elem types.Type) error {
 					c.cmp("<=", intT, off, fmt.Sprintf("(eidx %s)", q)), c.cmp("<", intT, fmt.Sprintf("(eidx %s)", q), c.binopIdx("+", off, fmt.Sprintf("(scap %s)", s.S))))
 				alts = append(alts, and(conds...))
 			}
+			if e.fc != nil && e.fc.LambdaFrame {
+				// the new memory as an array lambda: reads beta-reduce, no quantifier instantiation is involved
+				// (z3 only; cvc5 does not accept array lambdas)
+				// (a declared constant with a defining equation, so that patterns mentioning it stay legal)
+				n2 := c.fresh("M_" + key)
+				c.declare(n2, srt)
+				c.assume(fmt.Sprintf("(= %s (lambda ((p!h Loc)) (ite %s (select %s p!h) (select %s p!h))))", n2, or(alts...), n, cur))
+				st.mem[key] = n2
+				continue
+			}
 			c.assume(fmt.Sprintf("(forall ((p!h Loc)) (! (=> (not %s) (= (select %s p!h) (select %s p!h))) :pattern ((select %s p!h))))", or(alts...), n, cur, n))
 			st.mem[key] = n
 		}
